@@ -125,7 +125,21 @@ def list_kind(prog, body, op, list_params, depth=0):
             elif d in ("core::iter::traits::iterator::Iterator::enumerate", "core::iter::traits::iterator::Iterator::zip", "core::iter::traits::iterator::Iterator::peekable"):
                 kinds.add(list_kind(prog, body, o.site.node["args"][0], list_params, depth + 1))
             else:
-                kinds.add("OTHER")
+                # a local helper that maps a list it is given (`fn query_arguments(&self, labels: &[&T]) -> Vec<&Label<T>>`)
+                tgt = prog.body_for_callee(o.data, body) if o.data.get("decl") != "<indirect>" else None
+                got = None
+                if tgt is not None and tgt.kind != "closure" and depth < 6:
+                    import re as _re
+
+                    for k in range(1, tgt.n_args + 1):
+                        if not _re.match(r"^&(mut )?\[|^&?alloc::vec::Vec<", tgt.local_ty(k)) or k - 1 >= len(o.site.node["args"]):
+                            continue
+                        inner = list_kind(prog, tgt, {"c": {"l": 0, "p": []}}, {k}, depth + 1)
+                        if inner in ("FULL", "PARTIAL"):
+                            outer = list_kind(prog, body, o.site.node["args"][k - 1], list_params, depth + 1)
+                            if outer in ("FULL", "PARTIAL"):
+                                got = "FULL" if (inner, outer) == ("FULL", "FULL") else "PARTIAL"
+                kinds.add(got or "OTHER")
         else:
             kinds.add("OTHER")
     if not kinds:
